@@ -1,11 +1,15 @@
 pub mod c02;
+pub mod c04;
 pub mod c05;
+pub mod c20;
 
 use crate::Entry;
 
 pub fn all() -> Vec<Entry> {
     vec![
-        Entry { scn: &c02::C02Cell, quick_runs: 20_000, thorough_runs: 2_000_000 },
-        Entry { scn: &c05::C05Bucket, quick_runs: 6_000, thorough_runs: 1_000_000 },
+        Entry { scn: &c02::C02Cell, quick_runs: 100_000, thorough_runs: 5_000_000 },
+        Entry { scn: &c05::C05Bucket, quick_runs: 60_000, thorough_runs: 3_000_000 },
+        Entry { scn: &c04::C04Handles, quick_runs: 60_000, thorough_runs: 3_000_000 },
+        Entry { scn: &c20::C20Recoverable, quick_runs: 60_000, thorough_runs: 3_000_000 },
     ]
 }
